@@ -37,7 +37,12 @@ type line struct {
 
 var out *bufio.Writer
 
+var quiet bool // suppress output (replaying a walk to one of its states)
+
 func emit(l line) {
+	if quiet {
+		return
+	}
 	b, _ := json.Marshal(l)
 	out.Write(b)
 	out.WriteByte('\n')
@@ -401,7 +406,14 @@ func emitFanout(s *mpexec.System, cur *mpexec.State, at int, skip string) {
 // computed; a label-balanced sample of them (reservoir per label, so that rarely enabled labels are
 // kept in full) is written as "succ" lines: TLC validates each as a step of the specification.
 func runWalk(run int, sysName string, n int, seed int64, maxSteps int, policy string, args map[string]int, maxEdges int) {
+	runWalkTo(run, sysName, n, seed, maxSteps, policy, args, maxEdges, -1)
+}
+
+// runWalkTo is runWalk; with stopAt >= 0 it returns the system and the state the walk holds after stopAt steps
+// (the walk is deterministic in its seed and parameters), without finishing the walk.
+func runWalkTo(run int, sysName string, n int, seed int64, maxSteps int, policy string, args map[string]int, maxEdges int, stopAt int) (*mpexec.System, *mpexec.State) {
 	r := rand.New(rand.NewSource(seed))
+	rs := rand.New(rand.NewSource(seed ^ 0x5eed)) // sampling of successors: must not disturb the walk's own choices
 	s := build(sysName, n, args)
 	crashW, pol := setOracle(s, r, policy)
 	walkOracle := s.Oracle
@@ -409,7 +421,7 @@ func runWalk(run int, sysName string, n int, seed int64, maxSteps int, policy st
 	cur, err := s.InitialState()
 	if err != nil {
 		emit(line{E: "error", Msg: err.Error()})
-		return
+		return s, nil
 	}
 	emit(line{E: "step", Label: "Init", State: s.Dump(cur)})
 	pos := 0
@@ -422,6 +434,9 @@ func runWalk(run int, sysName string, n int, seed int64, maxSteps int, policy st
 	}
 	failed := map[int]bool{}
 	for steps := 0; steps < maxSteps; {
+		if pos == stopAt {
+			return s, cur
+		}
 		var live []int
 		for pi := range s.Procs {
 			if cur.P[pi].PC != "Done" && !failed[pi] {
@@ -450,7 +465,7 @@ func runWalk(run int, sysName string, n int, seed int64, maxSteps int, policy st
 					seen[sc.Label]++
 					if len(res[sc.Label]) < perLabel {
 						res[sc.Label] = append(res[sc.Label], l)
-					} else if j := r.Intn(seen[sc.Label]); j < perLabel {
+					} else if j := rs.Intn(seen[sc.Label]); j < perLabel {
 						res[sc.Label][j] = l
 					}
 				}
@@ -498,6 +513,115 @@ func runWalk(run int, sysName string, n int, seed int64, maxSteps int, policy st
 		}
 	}
 	emit(line{E: "end"})
+	if pos == stopAt {
+		return s, cur
+	}
+	return s, nil
+}
+
+// ---- confirmation of a look-ahead alarm: directed continuations from a state of a walk ----
+
+// contOracle resolves choices at random, except that election time-outs fire only on the favoured node.
+type contOracle struct {
+	r      *rand.Rand
+	favour int
+}
+
+func (o *contOracle) Choose(p *mpexec.Proc, id string, n uint) uint {
+	if strings.HasPrefix(id, "leaderTimeout") && n == 2 {
+		if p.Node == o.favour && o.r.Float64() < 0.7 {
+			return 0 // the time-out fires
+		}
+		return 1
+	}
+	return uint(o.r.Intn(int(n)))
+}
+
+// runCont replays walk `run` to its state after `step` steps, optionally takes the successor edge
+// (proc, label, choices) from there, and then performs, for every node, `walks` random continuations of at
+// most `maxLen` steps in which only processes that belong to a node are scheduled and only the favoured
+// node's election timer fires. Every continuation is written as a walk (steps with changed variables).
+func runCont(sysName string, n int, baseSeed int64, maxSteps int, policy string, args map[string]int, maxEdges int,
+	run, step int, proc, label string, choices []uint, expect string, walks, maxLen int) {
+	quiet = true
+	s, st := runWalkTo(run, sysName, n, baseSeed*100000+int64(run-1)*7919+3, maxSteps, policy, args, maxEdges, step)
+	quiet = false
+	if st == nil {
+		emit(line{E: "cont-fail", Msg: "the walk does not reach that step when replayed"})
+		return
+	}
+	if proc != "" {
+		pi := -1
+		for i, p := range s.Procs {
+			if p.Self.String() == proc {
+				pi = i
+			}
+		}
+		if pi < 0 {
+			emit(line{E: "cont-fail", Msg: "unknown process " + proc})
+			return
+		}
+		s.Oracle = &mpexec.EnumOracle{Script: choices}
+		ok, nx, _, err := s.StepFrom(st, pi)
+		if err != nil || !ok {
+			emit(line{E: "cont-fail", Msg: fmt.Sprintf("the successor edge could not be taken again (committed=%v err=%v)", ok, err)})
+			return
+		}
+		st = nx
+	}
+	if expect != "" && tlaval.MustCanon(s.Dump(st)) != tlaval.MustCanon(expect) {
+		emit(line{E: "cont-fail", Msg: "the replayed state differs from the recorded one", State: s.Dump(st)})
+		return
+	}
+	nodes := map[int]bool{}
+	for _, p := range s.Procs {
+		if p.Node > 0 {
+			nodes[p.Node] = true
+		}
+	}
+	caseNo := 0
+	for node := range nodes {
+		for w := 0; w < walks; w++ {
+			caseNo++
+			r := rand.New(rand.NewSource(baseSeed*7777 + int64(node)*131 + int64(w)))
+			s.Oracle = &contOracle{r: r, favour: node}
+			emit(line{E: "case", Run: caseNo, Sys: sysName, Policy: fmt.Sprintf("continuation favour=%d", node), Seed: int64(w)})
+			cur := st
+			curVars := s.DumpVars(cur)
+			emit(line{E: "step", Label: "Init", State: s.Dump(cur)})
+			failed := map[int]bool{}
+			for steps := 0; steps < maxLen; {
+				var live []int
+				for pi, p := range s.Procs {
+					if p.Node > 0 && cur.P[pi].PC != "Done" && !failed[pi] {
+						live = append(live, pi)
+					}
+				}
+				if len(live) == 0 {
+					break
+				}
+				pi := live[r.Intn(len(live))]
+				ok, nx, ch, err := s.StepFrom(cur, pi)
+				if err != nil {
+					emit(line{E: "error", Proc: s.Procs[pi].Self.String(), Label: cur.P[pi].PC, Msg: err.Error(), Choices: ch})
+					break
+				}
+				if !ok {
+					if len(ch) == 0 {
+						failed[pi] = true
+					}
+					continue
+				}
+				failed = map[int]bool{}
+				steps++
+				nv := s.DumpVars(nx)
+				d, _ := diffVars(curVars, nv)
+				emit(line{E: "step", Proc: s.Procs[pi].Self.String(), Label: cur.P[pi].PC, State: s.Dump(nx), Choices: ch, D: d})
+				cur, curVars = nx, nv
+			}
+			emit(line{E: "end"})
+		}
+	}
 }
 
 // diffVars returns the variables whose text differs between two DumpVars results: new values and old values.
@@ -586,6 +710,7 @@ func main() {
 	extra := flag.String("args", "", "k=v,k=v extra integer parameters")
 	traceF := flag.String("trace", "", "ndjson of TLC behaviours for -policy guided")
 	flag.IntVar(&fanout, "fanout", 0, "guided policy: also emit up to this many other successors of every visited state")
+	contF := flag.String("cont", "", "walk-* policies: JSON {run, step, proc, label, choices, state, walks, len}: replay that walk to that state and explore directed continuations")
 	flag.Parse()
 	args := map[string]int{}
 	for _, kv := range strings.Split(*extra, ",") {
@@ -607,6 +732,18 @@ func main() {
 	defer func() { out.Flush(); fh.Close() }()
 	if *policy == "guided" {
 		runGuided(*sysName, *n, *traceF, args)
+		return
+	}
+	if strings.HasPrefix(*policy, "walk-") && *contF != "" {
+		var c struct {
+			Run, Step, Walks, Len int
+			Proc, Label, State    string
+			Choices               []uint
+		}
+		if err := json.Unmarshal([]byte(*contF), &c); err != nil {
+			panic(err)
+		}
+		runCont(*sysName, *n, *seed, *maxSteps, strings.TrimPrefix(*policy, "walk-"), args, fanout, c.Run, c.Step, c.Proc, c.Label, c.Choices, c.State, c.Walks, c.Len)
 		return
 	}
 	if strings.HasPrefix(*policy, "walk-") {
